@@ -1,5 +1,9 @@
 SPECIFICATION Spec
-CONSTANTS MaxLen = 2
+CONSTANTS Kinds = {"plain"}
+          MixedServerSet = {}
+          MixedCoreServers = {}
+          MixedMethKeys = {"G", "GP"}
+          MaxLen = 2
           MaxT = 2
           ServerSet = {"none"}
           CoreLen = 0
